@@ -654,10 +654,8 @@ theorem applyFunction_step {fuel : Nat} (ih : Spec fuel) : ∀ fn args st, Inv s
         refine Post.bind (Q := fun _ s2 => s2.frames.size = s1.frames.size)
           (Post.modify (hI1.update rfl hnenv rfl hI1.cache) (Nat.le_refl _) rfl) ?_
         intro _ s2 hI2 _ hsz2
-        refine Post.bind (post_getFrame (Q := fun _ s => s.frames.size = s2.frames.size) hI2 (by omega) (fun _ _ => rfl)) ?_
-        intro fr0 s2' hI2' _ hsz2'
         extract_lets before
-        refine Post.bind (ih.eval _ _ hI2') ?_
+        refine Post.bind (ih.eval _ _ hI2) ?_
         intro res s3' hI3' hle3 hres'
         refine Post.bind (post_getFrame (Q := fun _ s => s.frames.size = s3'.frames.size) hI3' (by omega) (fun _ _ => rfl)) ?_
         intro fr s3 hI3 _ hsz3
